@@ -140,11 +140,17 @@ def host_button_matches(n):
     def body(hw):
         S = hw.load("Reduino.Sensors")
         sig = [pysym.sym_bool(f"s{i}") for i in range(1, n + 1)]
-        it = iter(sig)
         clicks = []
-        b = S.Button(2, on_click=lambda: clicks.append(1), state_provider=lambda: next(it))
+        taken = []
+
+        def provider():
+            # the k-th sample of the signal; a model that samples more often than once per call runs off its end
+            taken.append(1)
+            return sig[len(taken) - 1] if len(taken) <= n else False
+        b = S.Button(2, on_click=lambda: clicks.append(1), state_provider=provider)
         for _ in range(n):
             b.is_pressed()
+        claim("every is_pressed() takes exactly one sample of the signal", len(taken) == n)
         prev = z3.BoolVal(False)
         edges = z3.BitVecVal(0, 64)
         for s in sig:
@@ -158,6 +164,7 @@ def host_button_matches(n):
 # ------------------------------------------------------------------ ultrasonic
 ULTRA_SRC = HDR + 'u = Ultrasonic(7, 8)\nwhile True:\n    d = u.measure_distance()\n    mon.write(d)\n'
 ULTRA_SRC_KW = HDR + 'u = Ultrasonic(trig=5, echo=6, sensor="HC-SR04")\nwhile True:\n    mon.write(u.measure_distance())\n'
+ULTRA_SRC_TWO_PRINTS = HDR + 'u = Ultrasonic(7, 8)\nwhile True:\n    mon.write(u.measure_distance())\n    mon.write(u.measure_distance())\n'
 ULTRA_SRC_TWO = HDR + 'u = Ultrasonic(7, 8)\nwhile True:\n    a = u.measure_distance()\n    b = u.measure_distance()\n    mon.write(a)\n    mon.write(b)\n'
 
 
@@ -202,6 +209,19 @@ def ultra_analyse(trig, echo, calls_per_pass=1):
                 cur.append(t)
         last_good = None      # z3 FP32->64 term of the last good distance, python None = no reading yet
         have = z3.BoolVal(False)
+        # token abstraction of the float values (fast over-approximating claim): equal simplified terms -> same token
+        toks = {}
+        keep = []
+
+        def tok(t):
+            t = z3.simplify(t)
+            k = t.get_id()
+            if k not in toks:
+                toks[k] = z3.BitVec(f"__tok{len(toks)}", 40)
+                keep.append(t)
+            return toks[k]
+        C400 = z3.FPVal(400.0, F64)
+        last_good_tok = None
         prev_trigger_upper = None   # first clock reading after the previous trigger (z3 term) or None
         awaiting_reading = False
         for ci, (items, printed) in enumerate(calls, 1):
@@ -244,13 +264,26 @@ def ultra_analyse(trig, echo, calls_per_pass=1):
                 dlast = call_durs[-1]
                 d32 = z3.fpUnsignedToFP(RNE, dlast, F32)
                 ref32 = z3.fpDiv(RNE, z3.fpMul(RNE, d32, z3.FPVal(0.0343, F32)), z3.FPVal(2.0, F32))
+                p32 = pf if isinstance(printed, FP) else None       # (binary64 image of the printed binary32 value)
                 ref = z3.fpFPToFP(RNE, ref32, F64)
+                if p32 is not None:
+                    # the same value spelt the way the lowered code computes it (x/2 may be emitted as x*0.5)
+                    alt = z3.fpFPToFP(RNE, z3.fpMul(RNE, z3.fpMul(RNE, d32, z3.FPVal(0.0343, F32)), z3.FPVal(0.5, F32)), F64)
+                    if z3.simplify(p32).eq(z3.simplify(alt)):
+                        ref = alt
                 good = dlast != zero
                 fallback = z3.If(have, last_good if last_good is not None else z3.FPVal(400.0, F64), z3.FPVal(400.0, F64))
                 want = z3.If(good, ref, fallback)
                 tol = z3.fpAdd(RNE, z3.FPVal(1e-3, F64), z3.fpMul(RNE, z3.FPVal(1e-4, F64), z3.fpAbs(want)))
                 bad = z3.Not(z3.fpLEQ(z3.fpAbs(z3.fpSub(RNE, pf, want)), tol))
-                claims.append((f"call {ci}: result is echo*0.0343/2 of the first good echo, else the last good reading, else 400", bad))
+                name = f"call {ci}: result is echo*0.0343/2 of the first good echo, else the last good reading, else 400"
+                if p32 is not None:
+                    fb_tok = z3.If(have, last_good_tok, tok(C400)) if last_good_tok is not None else tok(C400)
+                    want_tok = z3.If(good, tok(ref), fb_tok)
+                    claims.append((name, tok(p32) != want_tok, bad))
+                    last_good_tok = z3.If(good, tok(ref), last_good_tok if last_good_tok is not None else tok(C400))
+                else:
+                    claims.append((name, bad))
                 claims.append((f"call {ci}: gives up only after three attempts", z3.And(z3.Not(good), z3.BoolVal(ntr != 3))))
                 last_good = z3.If(good, ref, last_good) if last_good is not None else z3.If(good, ref, z3.FPVal(400.0, F64))
                 have = z3.Or(have, good)
@@ -279,9 +312,11 @@ def _work(item):
         return FwSpec(oid, src, button_analyse(pin, cb, in_loop), passes=passes,
                       describe="button sampling/edge/is_pressed claims over symbolic sampled levels").run()
     if kind == "ultra":
-        _, oid, src, trig, echo, passes = item
-        return FwSpec(oid, src, ultra_analyse(trig, echo), passes=passes, max_paths=3000, budget_s=600,
-                      describe="ultrasonic helper over a call history with symbolic echoes and clock").run()
+        _, oid, src, trig, echo, passes = item[:6]
+        wrap = len(item) > 6 and item[6]
+        return FwSpec(oid, src, ultra_analyse(trig, echo), passes=passes, max_paths=3000, budget_s=600, clock_wrap=wrap,
+                      describe="ultrasonic helper over a call history with symbolic echoes and clock"
+                               + (" (free-running modular millisecond counter: wrap-around included)" if wrap else "")).run()
     if kind == "pot":
         _, oid, src, passes = item
         return ScriptDiff(oid, src, passes=passes).run()
@@ -302,7 +337,9 @@ def run(tier, seed, only=None):
     for name, src in POT_SCRIPTS.items():
         items.append(("pot", f"pot/{name}", src, 2))
     items.append(("ultra", "ultrasonic/two_calls", ULTRA_SRC, 7, 8, 2))
-    items.append(("ultra", "ultrasonic/keywords", ULTRA_SRC_KW, 5, 6, 2))
+    items.append(("ultra", "ultrasonic/keywords", ULTRA_SRC_KW, 5, 6, 1))
+    # two calls in one pass with the millisecond counter allowed to wrap between any two readings
+    items.append(("ultra", "ultrasonic/wrap_two_calls_one_pass", ULTRA_SRC_TWO_PRINTS, 7, 8, 1, True))
     if tier == "thorough":
         items.append(("ultra", "ultrasonic/three_calls", ULTRA_SRC, 7, 8, 3))
     if only:
